@@ -11,7 +11,7 @@ counts per level in raw_learners) and emits every history with the expected Resu
 
 This driver builds each Result as a real coba Result (through the constructor with shuffled rows, and
 through TransactionResult as a transaction log is read), with the abstract parameter values mapped to ints,
-strings and mixed unsortable hashables (float / str / tuple / None), replays the calls on it and compares
+strings and mixed unsortable hashables (float / str / tuple / None; two of the three encodings per history), replays the calls on it and compares
 after every call: the interaction rows (exact, value by value), the ids and values of the three parameter
 tables, and for raw_learners every reported number (bag per learner level and x, 1e-9).  Python converts and
 compares only; every expectation comes out of TLC."""
@@ -219,7 +219,7 @@ def _job(job):
     key, h, quick, seed = job
     hk = zlib.crc32(key.encode())
     rng = random.Random(seed * 1000003 + hk)
-    encs = ("int", "str", "mixed") if not quick else ("int", ("str", "mixed")[hk % 2])
+    encs = (("int", "str"), ("int", "mixed"), ("str", "mixed"))[hk % 3] if not quick else ("int", ("str", "mixed")[hk % 2])
     for i, enc in enumerate(encs):
         route = ("ctor", "log")[(hk // 2 + i) % 2]
         variant = (hk // 4 + i) % 4
@@ -289,7 +289,7 @@ def plan(ctx):
                                 "TabFull <- Bools": "TabFull <- OnlyF"}), None, 50000),
         ("chains-sim", S(PAT, WIDE, NODESIGN, {"Dims <- D221": "Dims <- DAll", "MaxOps = 1": "MaxOps = 5", "MaxLen = 2": "MaxLen = 4", "Pars <- P2": "Pars <- P4",
                                                "MaxMissing = 9": "MaxMissing = 4", "FinNs <- N2": "FinNs <- N4", "RawArgs <- RawMid": "RawArgs <- RawAll",
-                                               "Salts = {0}": "Salts = {0, 1, 2}"}), dict(num=60), 20000),
+                                               "Salts = {0}": "Salts = {0, 1, 2}"}), dict(num=30), 20000),
     ]
 
 
